@@ -10,6 +10,7 @@
 (*   Enter(p)    with Tdf(p): ...             (parses the header)          *)
 (*   Read(p)     Tdf(p).blocks                (implicit context)           *)
 (*   Mutate(p)   add a block in a write context, file p only               *)
+(*   MCopy(p, q) mutate p and copy it to q inside the same write context   *)
 (*                                                                         *)
 (* Expect(fs, o) is the set of allowed [fs', res] pairs, res being "ok",   *)
 (* "exists" (FileExistsError), "refused" (any exception).  fresh content   *)
@@ -44,6 +45,14 @@ Allowed(fs, o, t, res) ==
     [] o.op \in {"enter", "read"} ->
          /\ t = fs
          /\ res = IF fs[o.p].kind = "tdf" THEN "ok" ELSE "refused"
+    [] o.op = "mcopy" ->
+         \* mutate p and copy it to q while the write context on p is still open: the copy must
+         \* hold everything the open object has written (nothing pending in a buffer)
+         IF fs[o.p].kind # "tdf" THEN res = "refused" /\ t = fs
+         ELSE /\ t[o.p].kind = "tdf" /\ t[o.p].cid # fs[o.p].cid
+              /\ IF Exists(fs[o.q])
+                 THEN res = "exists" /\ \A q \in Paths \ {o.p} : t[q] = fs[q]
+                 ELSE res = "ok" /\ t[o.q] = t[o.p] /\ \A q \in Paths \ {o.p, o.q} : t[q] = fs[q]
     [] o.op = "mutate" ->
          IF fs[o.p].kind # "tdf" THEN res = "refused" /\ t = fs
          ELSE /\ res = "ok"
